@@ -1,7 +1,11 @@
 #!/bin/bash
 # tools/seeds_all.sh : re-run every kept seeded change against the checks that are recorded to catch it
 cd "$(dirname "$0")/.."
+# optional arguments: <slice> <nslices> (run every nslices-th seed, for
+# parallel use: tools/seeds_all.sh 0 2 & tools/seeds_all.sh 1 2)
+SL=${1:-0}; NSL=${2:-1}; IDX=-1
 for d in seeded/*/; do
+  IDX=$((IDX+1)); [ $((IDX % NSL)) -eq "$SL" ] || continue
   name=$(basename "$d")
   checks=$(python3 -c "import json;print(' '.join(json.load(open('$d/meta.json'))['checks_that_catch_it']))")
   wt="$(mktemp -d /tmp/nv_sd_XXXXXX)"; rmdir "$wt"
